@@ -249,7 +249,13 @@ def traces_of_hidden(out: str, system: Any, target: str, pages: Optional[Dict[st
     """Every trace of the hidden object `target` (and everything inside it) in the output tree."""
     pages = pages or parse_pages(out)
     sigs: List[Tuple[Tuple[str, ...], str]] = []
-    objs = {k: o for k, o in system.allobjects.items() if k == target or k.startswith(target + '.')}
+    objs: Dict[str, Any] = {}
+
+    def collect(o: Any) -> None:
+        objs[o.fullName()] = o
+        for c in o.contents.values():
+            collect(c)
+    collect(system.allobjects[target])
     from pydoctor import model
     for k, o in objs.items():
         kindname = type(o).__name__
@@ -272,7 +278,8 @@ def traces_of_hidden(out: str, system: Any, target: str, pages: Optional[Dict[st
                     sigs.append((('hidden-href', f'{tag}.{cls.split()[0] if cls else ""}', kindname, ctx), f'{f}: {attr}={u!r} targets hidden {k}'))
         for idx in ('searchindex.json', 'fullsearchindex.json'):
             pth = os.path.join(out, idx)
-            if os.path.exists(pth) and json.dumps(k)[1:-1] in open(pth, encoding='utf-8').read():
+            # a search entry is a lunr document whose ref is the qualified name: field vectors are keyed "<field>/<ref>"
+            if os.path.exists(pth) and re.search(r'"\w+/%s"' % re.escape(json.dumps(k)[1:-1]), open(pth, encoding='utf-8').read()):
                 sigs.append((('hidden-in-search-index', idx, kindname), f'{idx} mentions {k}'))
         ad = os.path.join(out, 'all-documents.html')
         if os.path.exists(ad) and re.search(r'<li id="%s"' % re.escape(k), open(ad, encoding='utf-8').read()):
